@@ -154,3 +154,7 @@ pub fn expose(m: &Scope, global: &mut FunctionMap) {
 #[cfg(kani)]
 #[path = "/verif/kani/strfns.rs"]
 mod kani_verif;
+
+#[cfg(kani)]
+#[path = "/verif/kani/strfns_arith.rs"]
+mod kani_verif_arith;
